@@ -215,19 +215,24 @@ class Relabel:
         return self._r.floor(self._rule, *a, **kw)
 
 
-def run_stage(run: "Run", stage: str) -> None:
-    """Re-evaluate the complete rule set of another property inside this run (the property depends on that stage);
-    obligations are recorded with a [stage ..] prefix, findings keep the stage's rule id."""
+def run_stage(run: "Run", stage: str, only: Optional[set] = None) -> None:
+    """Re-evaluate the rule set of another property inside this run (the property depends on that stage) - all of it,
+    or the rules named in `only` when the dependency is on part of the stage; obligations are recorded with a
+    [stage ..] prefix, findings keep the stage's rule id."""
     import importlib
 
     mod = importlib.import_module(f"sa.rules.{stage}")
     sub = Run(stage.upper(), run.model, run.tier, run.seed)
     mod.check(sub)
     for o in sub.obligations:
+        if only is not None and o.get("rule") not in only:
+            continue
         o2 = dict(o)
         o2["what"] = f"[stage {stage.upper()}] " + o2["what"]
         run.obligations.append(o2)
     for f in sub.findings:
+        if only is not None and f.rule not in only:
+            continue
         f.prop = run.prop
         if f.key() not in [x.key() for x in run.findings]:
             run.findings.append(f)
